@@ -78,8 +78,88 @@ struct TsanIgnoreScope
 #define TSAN_IGNORE_SCOPE() ((void)0)
 #endif
 
+#if defined(VERIF_TSAN)
+#include <dlfcn.h>
+extern "C"
+{
+    int __tsan_get_report_data(void* report, const char** description, int* count, int* stack_count, int* mop_count, int* loc_count, int* mutex_count, int* thread_count,
+                               int* unique_tid_count, void** sleep_trace, unsigned long trace_size);
+    int __tsan_get_report_mop(void* report, unsigned long idx, int* tid, void** addr, int* size, int* write, int* atomic, void** trace, unsigned long trace_size);
+    __attribute__((used)) const char* __tsan_default_options() { return "history_size=7:halt_on_error=0:report_signal_unsafe=0:exitcode=0:report_thread_leaks=0"; }
+}
 namespace sim
 {
+struct TsanReportRec
+{
+    bool stop_path;
+    char text[400];
+};
+static TsanReportRec g_tsan_reports[32];
+static volatile int g_tsan_report_count = 0;
+void* g_tsan_stop_flag_addr[4] = {nullptr, nullptr, nullptr, nullptr};
+}
+// called by the TSan runtime for every report it is about to print
+extern "C" void __tsan_on_report(void* report)
+{
+    using namespace sim;
+    const char* desc = nullptr;
+    int count = 0, stack_count = 0, mop_count = 0, loc_count = 0, mutex_count = 0, thread_count = 0, utid = 0;
+    void* sleep_trace[8];
+    __tsan_get_report_data(report, &desc, &count, &stack_count, &mop_count, &loc_count, &mutex_count, &thread_count, &utid, sleep_trace, 8);
+    int idx = g_tsan_report_count;
+    if (idx >= 32) return;
+    TsanReportRec& r = g_tsan_reports[idx];
+    r.stop_path = false;
+    size_t pos = 0;
+    auto app = [&](const char* s) {
+        while (*s && pos + 1 < sizeof r.text) r.text[pos++] = *s++;
+        r.text[pos] = 0;
+    };
+    app(desc ? desc : "?");
+    for (int m = 0; m < mop_count && m < 4; ++m)
+    {
+        int tid = 0, size = 0, write = 0, atomic = 0;
+        void* addr = nullptr;
+        void* trace[16] = {nullptr};
+        __tsan_get_report_mop(report, (unsigned long)m, &tid, &addr, &size, &write, &atomic, trace, 16);
+        app(write ? " | write:" : " | read:");
+        for (auto f : g_tsan_stop_flag_addr)
+            if (f && addr == f) { r.stop_path = true; app(" [stop flag]"); }
+        for (int k = 0; k < 16 && trace[k]; ++k)
+        {
+            Dl_info di;
+            if (dladdr(trace[k], &di) && di.dli_sname)
+            {
+                if (k < 4) { app(" "); app(di.dli_sname); }
+                if (strstr(di.dli_sname, "6Search4stop") || strstr(di.dli_sname, "12stop_command") || strstr(di.dli_sname, "12quit_command")) r.stop_path = true;
+            }
+        }
+    }
+    g_tsan_report_count = idx + 1;
+}
+#endif
+
+namespace sim
+{
+#if defined(VERIF_TSAN)
+static void collect_tsan_reports()
+{
+    static int seen = 0;
+    while (seen < g_tsan_report_count)
+    {
+        TsanReportRec& r = g_tsan_reports[seen++];
+        if (!W) continue;
+        if (r.stop_path) W->violation("C06", "data-race-on-stop-path", std::string("ThreadSanitizer: ") + r.text);
+        else
+        {
+            W->counters["tsan_other_races"]++;
+            if (W->result.transcript_tail.size() < 3) W->result.transcript_tail.push_back(std::string("[tsan other race] ") + r.text);
+        }
+    }
+}
+#else
+static void collect_tsan_reports() {}
+#endif
 // ----------------------------------------------------------------- futex --
 static long raw_futex(volatile int* uaddr, int op, int val, const struct timespec* timeout)
 {
@@ -720,6 +800,9 @@ void World::on_go_entry(Task* t)
     }
     g.entry_clock = clock_ns;
     g.entered = true;
+#if defined(VERIF_TSAN)
+    g_tsan_stop_flag_addr[t->id & 3] = &s->stop_search;
+#endif
     if (monitors_on) monitor_go_entry(t, s);
 }
 
@@ -1465,6 +1548,7 @@ RunResult run_world(const Script& script)
             break;
         }
 
+        collect_tsan_reports();
         // bounds -------------------------------------------------------
         if (world.cur_go >= 0)
         {
@@ -1577,6 +1661,7 @@ RunResult run_world(const Script& script)
     // search threads are detached; they touch nothing of the world after verif_thread_end.
 
     // end-of-run oracles
+    collect_tsan_reports();
     world.end_of_run_checks();
 
     res.trace_hash = world.trace_hash;
